@@ -20,7 +20,7 @@ use crate::execution::factorized_chunk::FactorizedChunk;
 use crate::execution::vector::ValueVector;
 use crate::graph::Direction;
 use crate::graph::lpg::LpgStore;
-use grafeo_common::types::{EdgeId, EpochId, LogicalType, NodeId, TxId};
+use grafeo_common::types::{EdgeId, EpochId, LogicalType, NodeId, TxId, Value};
 
 /// Result type for factorized operations.
 pub type FactorizedResult = Result<Option<FactorizedChunk>, OperatorError>;
@@ -158,9 +158,16 @@ impl FactorizedExpandOperator {
         offsets.push(0);
 
         for row_idx in 0..row_count {
-            let source_id = source_col.get_node_id(row_idx).ok_or_else(|| {
-                OperatorError::Execution("Expected node ID in source column".into())
-            })?;
+            let Some(source_id) = source_col.get_node_id(row_idx) else {
+                // A NULL source (the unmatched side of an OPTIONAL MATCH) has no edges.
+                if matches!(source_col.get_value(row_idx), None | Some(Value::Null)) {
+                    offsets.push(edge_ids.len() as u32);
+                    continue;
+                }
+                return Err(OperatorError::Execution(
+                    "Expected node ID in source column".into(),
+                ));
+            };
 
             let neighbors = self.get_neighbors(source_id);
 
